@@ -1,6 +1,6 @@
 SPECIFICATION Spec
 CONSTANTS
-  MaxStmts = 4
+  MaxStmts = 3
   MaxDepth = 3
   MaxUnits = 1
   MaxVar = 1
@@ -18,11 +18,11 @@ CONSTANTS
   LabelStmts = FALSE
   Contains = TRUE
   PKinds <- KLayout1
-  MaxEdits = 2
+  MaxEdits = 1
   InsSet <- InsSmall
   MinEdits = 0
   Randomised = FALSE
-  DumpMod = 1
+  DumpMod = 2
   NRepl = 17
   RichOnly = FALSE
   NeedStruct = FALSE
